@@ -98,7 +98,8 @@ Inductive label :=
 | LApp (tick : bool) (orders : list (list N))
                                     (* the applier performs its next atomic action; when it is idle:
                                        tick=false receives the next buffered item, tick=true takes a ticker
-                                       event and starts a sweep; [orders] = Go's map orders for policy.Add *)
+                                       event and starts a sweep; [orders] = Go's map orders for policy.Add
+                                       (for a sweep: its head lists the keys visited first) *)
 | LTime (d : Z)                     (* the clock advances *)
 | LEst (k : N) (v : Z)              (* the access-frequency estimate of a key changes *)
 | LGets (kept : bool) (n : N).      (* a batch of n recorded Gets is kept / dropped by the ring buffer *)
@@ -279,8 +280,13 @@ Definition client_step (c : cfg) (s : state) (tid : nat) : option state :=
       | CClr ClrMetrics closing =>
           Some (goto_pc (with_pol s (s_pol s) (m_clear (s_met s))) tid o (CClr ClrRestart closing) [])
       | CClr ClrRestart closing =>
-          let s1 := with_app s AIdle [] in
-          if closing then Some (goto_pc s1 tid o (CClr ClsStop true) []) else Some (ret s1 tid o RUnit)
+          (* go c.processItems(): the previous applier goroutine has exited (it was stopped by this Clear) *)
+          match s_apc s with
+          | AExited =>
+              let s1 := with_app s AIdle [] in
+              if closing then Some (goto_pc s1 tid o (CClr ClsStop true) []) else Some (ret s1 tid o RUnit)
+          | _ => None
+          end
       | CClr ClsStop _ =>
           match s_apc s, s_apend s with
           | AIdle, [] =>
@@ -291,6 +297,11 @@ Definition client_step (c : cfg) (s : state) (tid : nat) : option state :=
       end
     end
   end.
+
+(* Go iterates the grabbed buckets (maps) in an arbitrary order: the keys named in [pref] are visited first *)
+Definition reorder (pref : list N) (keys : list (N * N)) : list (N * N) :=
+  List.filter (fun kc => bool_decide (kc.1 ∈ pref)) keys ++
+  List.filter (fun kc => negb (bool_decide (kc.1 ∈ pref))) keys.
 
 Definition item_cost (c : cfg) (i : item) : Z :=
   let c0 := match c_costfn c with
@@ -308,7 +319,7 @@ Definition app_step (c : cfg) (s : state) (tick : bool) (orders : list (list N))
     | AIdle =>
         if tick then
           let '(keys, e) := em_grab (c_bdur c) (s_now s) (s_em s) in
-          Some (with_app (with_store s (s_store s) e) (ASweep keys (s_now s)) [])
+          Some (with_app (with_store s (s_store s) e) (ASweep (reorder (hd [] orders) keys) (s_now s)) [])
         else
           match s_buf s with
           | [] => None
